@@ -91,15 +91,17 @@ func init() {
 // ---- the case -----------------------------------------------------------------------------
 
 type C15Req struct {
-	Event int32  `json:"event"`         // api.Event, 1..13
-	Pod   int    `json:"pod"`           // index into Pods
-	Ctr   int    `json:"ctr"`           // index into Ctrs (container events)
-	Res   int    `json:"res"`           // index into Res: UpdateContainer / UpdatePodSandbox resources
-	Ovh   int    `json:"ovh"`           // index into Res: UpdatePodSandbox overhead
-	Adj   int    `json:"adj"`           // scripted adjustment: index into Adjusts, -1 = nil (CreateContainer)
-	Upd   int    `json:"upd"`           // scripted updates: index into Updates, -1 = nil
-	Fail  bool   `json:"fail"`          // the handler fails ...
-	Err   string `json:"err,omitempty"` // ... with this text
+	Event int32 `json:"event"` // api.Event, 1..13
+	// The shape of the message is independent of the event kind: every optional part is an
+	// index into its pool, or -1 = absent (nil), or -2 = present but empty.
+	Pod  int    `json:"pod"`           // Pods
+	Ctr  int    `json:"ctr"`           // Ctrs; sent with every kind of request that has a container field - also pod events
+	Res  int    `json:"res"`           // Res: UpdateContainer / UpdatePodSandbox resources
+	Ovh  int    `json:"ovh"`           // Res: UpdatePodSandbox overhead
+	Adj  int    `json:"adj"`           // scripted adjustment: index into Adjusts, -1 = nil (CreateContainer)
+	Upd  int    `json:"upd"`           // scripted updates: index into Updates, -1 = nil
+	Fail bool   `json:"fail"`          // the handler fails ...
+	Err  string `json:"err,omitempty"` // ... with this text
 }
 
 // C15Chunk is one SynchronizeRequest message: indices into the pod and container pools.
@@ -552,6 +554,43 @@ func genSession(t *rapid.T, ent typeEntry, c *C15Case, nsess int) C15Session {
 			r.Fail = true
 			r.Err = genErrText(t)
 		}
+		// the shape of the message: mostly the documented one (pod events: pod only; container
+		// events and requests: pod and container), but every optional part may be absent or
+		// present-but-empty, and a pod event may carry a container
+		switch rapid.IntRange(0, 7).Draw(t, "podshape") {
+		case 0:
+			r.Pod = -1
+		case 1:
+			r.Pod = -2
+		}
+		ctrShape := rapid.IntRange(0, 19).Draw(t, "ctrshape")
+		if podEvent(e) {
+			switch {
+			case ctrShape < 11:
+				r.Ctr = -1
+			case ctrShape < 14:
+				r.Ctr = -2
+			}
+		} else {
+			switch {
+			case ctrShape < 3:
+				r.Ctr = -1
+			case ctrShape < 6:
+				r.Ctr = -2
+			}
+		}
+		switch rapid.IntRange(0, 9).Draw(t, "resshape") {
+		case 0:
+			r.Res = -1
+		case 1:
+			r.Res = -2
+		}
+		switch rapid.IntRange(0, 9).Draw(t, "ovhshape") {
+		case 0:
+			r.Ovh = -1
+		case 1:
+			r.Ovh = -2
+		}
 		s.Reqs = append(s.Reqs, r)
 	}
 	return s
@@ -863,8 +902,8 @@ func validCase(c C15Case) string {
 			}
 		}
 		for _, r := range s.Reqs {
-			if r.Event < 1 || r.Event > 13 || r.Pod < 0 || r.Pod >= len(c.Pods) || r.Ctr < 0 || r.Ctr >= len(c.Ctrs) ||
-				r.Res < 0 || r.Res >= len(c.Res) || r.Ovh < 0 || r.Ovh >= len(c.Res) ||
+			if r.Event < 1 || r.Event > 13 || r.Pod < -2 || r.Pod >= len(c.Pods) || r.Ctr < -2 || r.Ctr >= len(c.Ctrs) ||
+				r.Res < -2 || r.Res >= len(c.Res) || r.Ovh < -2 || r.Ovh >= len(c.Res) ||
 				r.Adj < -1 || r.Adj >= len(c.Adjusts) || r.Upd < -1 || r.Upd >= len(c.Updates) {
 				return "request index out of range"
 			}
@@ -1297,11 +1336,31 @@ func (cr *caseRun) runSession(k int, s *session) (verdict, string) {
 	for i, r := range sc.Reqs {
 		e := api.Event(r.Event)
 		isImpl := impl&evbit(e) != 0
-		pod := c.Pods[r.Pod]
-		var ctr *api.Container
-		if !podEvent(e) {
-			ctr = c.Ctrs[r.Ctr]
+		// the message as the case shapes it, whatever the event kind
+		var pod *api.PodSandbox
+		switch {
+		case r.Pod >= 0:
+			pod = c.Pods[r.Pod]
+		case r.Pod == -2:
+			pod = &api.PodSandbox{}
 		}
+		var ctr *api.Container
+		switch {
+		case r.Ctr >= 0:
+			ctr = c.Ctrs[r.Ctr]
+		case r.Ctr == -2:
+			ctr = &api.Container{}
+		}
+		resOf := func(i int) *api.LinuxResources {
+			switch {
+			case i >= 0:
+				return c.Res[i]
+			case i == -2:
+				return &api.LinuxResources{}
+			}
+			return nil
+		}
+		res, ovh := resOf(r.Res), resOf(r.Ovh)
 		var adj *api.ContainerAdjustment
 		if r.Adj >= 0 {
 			adj = c.Adjusts[r.Adj]
@@ -1330,10 +1389,10 @@ func (cr *caseRun) runSession(k int, s *session) (verdict, string) {
 			want, empty = &api.CreateContainerResponse{Adjust: adj, Update: upd}, &api.CreateContainerResponse{}
 			classes["script:adjust+updates"] = classes["script:adjust+updates"] || (isImpl && !r.Fail)
 		case api.Event_UPDATE_CONTAINER:
-			rp, err := s.plugin.UpdateContainer(ctx, &api.UpdateContainerRequest{Pod: pod, Container: ctr, LinuxResources: c.Res[r.Res]})
+			rp, err := s.plugin.UpdateContainer(ctx, &api.UpdateContainerRequest{Pod: pod, Container: ctr, LinuxResources: res})
 			got, rerr = rp, err
 			want, empty = &api.UpdateContainerResponse{Update: upd}, &api.UpdateContainerResponse{}
-			wantRes = []*api.LinuxResources{c.Res[r.Res]}
+			wantRes = []*api.LinuxResources{res}
 			classes["script:updates"] = classes["script:updates"] || (isImpl && !r.Fail)
 		case api.Event_STOP_CONTAINER:
 			rp, err := s.plugin.StopContainer(ctx, &api.StopContainerRequest{Pod: pod, Container: ctr})
@@ -1341,10 +1400,10 @@ func (cr *caseRun) runSession(k int, s *session) (verdict, string) {
 			want, empty = &api.StopContainerResponse{Update: upd}, &api.StopContainerResponse{}
 			classes["script:updates"] = classes["script:updates"] || (isImpl && !r.Fail)
 		case api.Event_UPDATE_POD_SANDBOX:
-			rp, err := s.plugin.UpdatePodSandbox(ctx, &api.UpdatePodSandboxRequest{Pod: pod, OverheadLinuxResources: c.Res[r.Ovh], LinuxResources: c.Res[r.Res]})
+			rp, err := s.plugin.UpdatePodSandbox(ctx, &api.UpdatePodSandboxRequest{Pod: pod, OverheadLinuxResources: ovh, LinuxResources: res})
 			got, rerr = rp, err
 			want, empty = &api.UpdatePodSandboxResponse{}, &api.UpdatePodSandboxResponse{}
-			wantRes = []*api.LinuxResources{c.Res[r.Ovh], c.Res[r.Res]}
+			wantRes = []*api.LinuxResources{ovh, res}
 		default:
 			rp, err := s.plugin.StateChange(ctx, &api.StateChangeEvent{Event: e, Pod: pod, Container: ctr})
 			got, rerr = rp, err
@@ -1376,6 +1435,28 @@ func (cr *caseRun) runSession(k int, s *session) (verdict, string) {
 		}
 		cr.sawImpl = true
 		classes["ev:"+evName(e)+":implemented"] = true
+		switch {
+		case podEvent(e) && e != api.Event_UPDATE_POD_SANDBOX && ctr != nil:
+			classes["shape:pod-event-with-container"] = true
+		case !podEvent(e) && r.Ctr == -1:
+			classes["shape:container-event-without-container"] = true
+		case !podEvent(e) && r.Ctr == -2:
+			classes["shape:empty-container"] = true
+		}
+		switch r.Pod {
+		case -1:
+			classes["shape:nil-pod"] = true
+		case -2:
+			classes["shape:empty-pod"] = true
+		}
+		if e == api.Event_UPDATE_CONTAINER || e == api.Event_UPDATE_POD_SANDBOX {
+			if r.Res == -1 || (e == api.Event_UPDATE_POD_SANDBOX && r.Ovh == -1) {
+				classes["shape:nil-resources"] = true
+			}
+			if r.Res == -2 || (e == api.Event_UPDATE_POD_SANDBOX && r.Ovh == -2) {
+				classes["shape:empty-resources"] = true
+			}
+		}
 		if wantMask&evbit(e) == 0 {
 			// Implemented but not subscribed: the runtime filters by the mask and never sends
 			// this; the stub dispatches by handler presence. The statement does not say which
@@ -1594,10 +1675,22 @@ func TestExh_C15(t *testing.T) {
 	ctr := &api.Container{Id: "ctr0-exh", PodSandboxId: "pod0-exh", Name: "c", Env: []string{"A=1"}, Args: []string{"sleep", "1"}}
 	pod2 := &api.PodSandbox{Id: "pod1-exh", Name: "exh2", Namespace: "kube-system", Annotations: map[string]string{"x": "y"}}
 	ctr2 := &api.Container{Id: "ctr1-exh", PodSandboxId: "pod1-exh", Name: "d", State: api.ContainerState_CONTAINER_RUNNING}
-	var okReqs, failReqs []C15Req
+	var okReqs, failReqs, shapeReqs []C15Req
 	for e := int32(1); e <= 13; e++ {
-		okReqs = append(okReqs, C15Req{Event: e, Ovh: 0, Res: 1, Adj: 0, Upd: 0})
-		failReqs = append(failReqs, C15Req{Event: e, Ovh: 1, Res: 0, Adj: -1, Upd: -1, Fail: true, Err: fmt.Sprintf("exh-fail-%d", e)})
+		doc, odd := 0, -1 // container as documented for the kind / the other way round
+		if podEvent(api.Event(e)) {
+			doc, odd = -1, 0
+		}
+		okReqs = append(okReqs, C15Req{Event: e, Ctr: doc, Ovh: 0, Res: 1, Adj: 0, Upd: 0})
+		failReqs = append(failReqs, C15Req{Event: e, Ctr: doc, Ovh: 1, Res: 0, Adj: -1, Upd: -1, Fail: true, Err: fmt.Sprintf("exh-fail-%d", e)})
+		// message shapes: the container the other way round (failing and succeeding handler),
+		// present-but-empty parts, absent parts
+		shapeReqs = append(shapeReqs,
+			C15Req{Event: e, Ctr: odd, Ovh: 0, Res: 1, Adj: -1, Upd: -1, Fail: true, Err: fmt.Sprintf("exh-shape-fail-%d", e)},
+			C15Req{Event: e, Ctr: odd, Ovh: -1, Res: 1, Adj: 0, Upd: 0},
+			C15Req{Event: e, Pod: -2, Ctr: -2, Ovh: -2, Res: -1, Adj: 0, Upd: -1, Fail: true, Err: "exh-empty"},
+			C15Req{Event: e, Pod: -1, Ctr: -2, Ovh: 0, Res: -2, Adj: -1, Upd: 0},
+			C15Req{Event: e, Pod: -1, Ctr: -1, Ovh: -1, Res: -1, Adj: 0, Upd: 0})
 	}
 	sess := func(mask api.EventMask, end string, reqs ...[]C15Req) C15Session {
 		s := C15Session{CfgMask: int32(mask), Config: "cfg", Runtime: "verif", Version: "1.0", End: end, SyncUpd: -1}
@@ -1663,7 +1756,7 @@ func TestExh_C15(t *testing.T) {
 			if ent.HasConfigure {
 				m1, m2 = lo, ent.Mask
 			}
-			runOne(mk(ti, withSync(sess(m1, "close", okReqs, failReqs), true, false, one)))
+			runOne(mk(ti, withSync(sess(m1, "close", okReqs, failReqs, shapeReqs), true, false, one)))
 			runOne(mk(ti,
 				withSync(sess(m2, "stop", okReqs), true, false, ch([]int{0}, []int{0}), ch([]int{1}, []int{1, 1})),
 				withSync(sess(m1, "close", okReqs), true, false, ch([]int{1}, nil)),
@@ -1675,14 +1768,14 @@ func TestExh_C15(t *testing.T) {
 			continue
 		}
 		if !ent.HasConfigure {
-			runOne(mk(ti, withSync(sess(0, "close", okReqs, failReqs), true, false, one)))
+			runOne(mk(ti, withSync(sess(0, "close", okReqs, failReqs, shapeReqs), true, false, one)))
 			// restart: three connections of one stub, ended both ways (no Synchronize handler:
 			// every synchronization message just succeeds)
 			runOne(mk(ti, withSync(sess(0, "stop", okReqs), true, false, one, one), withSync(sess(0, "close", failReqs), false, false, one), sess(0, "stop", okReqs)))
 			continue
 		}
 		for _, m := range []api.EventMask{0, ent.Mask} {
-			runOne(mk(ti, sess(m, "close", okReqs, failReqs)))
+			runOne(mk(ti, sess(m, "close", okReqs, failReqs, shapeReqs)))
 		}
 		for _, e := range implEv {
 			if evbit(e) == ent.Mask {
@@ -1724,7 +1817,7 @@ func TestExh_C15(t *testing.T) {
 		}
 	}
 	r.SetExtra("exhaustive", map[string]any{
-		"subdomain": "every generated plugin type (512: 128 handler sets x with/without Configure x with/without Synchronize) x each of the 13 event kinds (succeeding and failing handler); for the types without Synchronize handler: Configure returning 0, the implemented mask, each single implemented event, implemented+each single unimplemented event, and, for every third handler set, about twenty masks using bits 13..31 (all ones, the sign bit, bits 13..30; alone and on top of handled / unhandled events); per type restart sequences on one stub (3 connections; with Configure: subset -> 0 -> complementary subset, complementary subset -> subset -> implemented mask, rejected -> error -> implemented mask); for the types with Synchronize handler one stub synchronized six times in a row: split -> one message -> cut short after 3 messages -> split with failing handler -> cut short after 1 message -> one message",
+		"subdomain": "every generated plugin type (512: 128 handler sets x with/without Configure x with/without Synchronize) x each of the 13 event kinds (succeeding and failing handler; documented message shape, container present/absent the other way round, pod/container/resources absent and present-but-empty); for the types without Synchronize handler: Configure returning 0, the implemented mask, each single implemented event, implemented+each single unimplemented event, and, for every third handler set, about twenty masks using bits 13..31 (all ones, the sign bit, bits 13..30; alone and on top of handled / unhandled events); per type restart sequences on one stub (3 connections; with Configure: subset -> 0 -> complementary subset, complementary subset -> subset -> implemented mask, rejected -> error -> implemented mask); for the types with Synchronize handler one stub synchronized six times in a row: split -> one message -> cut short after 3 messages -> split with failing handler -> cut short after 1 message -> one message",
 		"types":     len(registry),
 		"cases":     cases,
 		"sessions":  sessions,
